@@ -219,19 +219,27 @@ class Hdd(Parser):
 
     def gates(self):
         return {"descriptor_present": [("missing",), ("misnamed", "diskdescriptor.xml"), ("misnamed", "DiskDescriptor.xml.bak")],
-                "image_type": [("type", t) for t in ("Raw", "compressed", "PLAIN", "", "Expanding", "Compressed2", "Plain ", "Sparse")]}
+                "image_type": [("type", t) for t in ("Raw", "compressed", "PLAIN", "", "Expanding", "Compressed2", "Plain ", "Sparse")],
+                "parent_image_type": [("ptype", t, depth) for t in ("Raw", "compressed", "PLAIN", "", "Expanding", "Sparse") for depth in (1, 2)]}
 
     def open(self, variants):
         from dissect.hypervisor.disk.hdd import HDD
         d = tempfile.mkdtemp(prefix="c12-hdd-", dir=self.work) + ".hdd"
         try:
+            # a chain of three snapshots: top (sparse) -> middle (sparse) -> base (sparse), one storage
             vf, _ = enc_hds.build({"ver": 2, "n": 1, "cb": 1, "bat": {0: 1}, "size": 1}, cluster_size=4096, P=2)
-            itype = "Compressed"
+            vfm, _ = enc_hds.build({"ver": 2, "n": 1, "cb": 1, "bat": {0: 0}, "size": 1}, cluster_size=4096, P=2, file_id=1)
+            vfb, _ = enc_hds.build({"ver": 2, "n": 1, "cb": 1, "bat": {0: 1}, "size": 1}, cluster_size=4096, P=2, file_id=2)
+            itype, ptypes = "Compressed", {1: "Compressed", 2: "Compressed"}
             for g, v in variants.items():
                 if v[0] == "type":
                     itype = v[1]
+                elif v[0] == "ptype":
+                    ptypes[v[2]] = v[1]
             g0 = enc_hds.DEFAULT_TOP
-            enc_hds.write_hdd_dir(d, [(0, 8, [(g0, itype, "a.hds")])], [(g0, enc_hds.NULL_GUID)], {"a.hds": vf}, top_guid=g0)
+            g1, g2 = "{11111111-aaaa-bbbb-cccc-000000000001}", "{22222222-aaaa-bbbb-cccc-000000000002}"
+            enc_hds.write_hdd_dir(d, [(0, 8, [(g0, itype, "a.hds"), (g1, ptypes[1], "m.hds"), (g2, ptypes[2], "b.hds")])],
+                                  [(g0, g1), (g1, g2), (g2, enc_hds.NULL_GUID)], {"a.hds": vf, "m.hds": vfm, "b.hds": vfb}, top_guid=g0)
             for g, v in variants.items():
                 if v[0] == "missing":
                     os.remove(os.path.join(d, "DiskDescriptor.xml"))
@@ -251,16 +259,27 @@ class VmdkSparse(Parser):
         self.bases = [enc_vmdk.build_hosted(ents, [True], capacity=16, grain=8, gtes=4, max_pos=3)[0],
                       enc_vmdk.build_cowd(ents, [True], capacity=16, grain=8, max_pos=3)[0],
                       enc_vmdk.build_sesparse(ents, [True], capacity=16, grain=8, gt_sectors=1, max_pos=3)[0]]
+        self.bases.append(enc_vmdk.build_hosted(ents, [True], capacity=16, grain=8, gtes=4, max_pos=3, footer=True, compressed=True, lba=True)[0])
         self.bases = [v.peek_bytes(0, v.size()) for v in self.bases]
+        self.footer_off = len(self.bases[3]) - 1024
 
     def gates(self):
-        return {"magic": [("v", 0, p) for p in flips(0, 4)] + [("v", 1, p) for p in flips(0, 4)] + [("v", 2, p) for p in flips(0, 8)]}
+        return {"magic": [("v", 0, p) for p in flips(0, 4)] + [("v", 1, p) for p in flips(0, 4)] + [("v", 2, p) for p in flips(0, 8)],
+                # stream-optimised extent (grain directory "at end"): the footer 1024 bytes before the end is a second header
+                "footer_magic": [("v", 3, p) for p in flips(self.footer_off, 4)] + [("v", 3, ("set", self.footer_off, m)) for m in (b"COWD", b"\0\0\0\0", b"vmdk", b"KDM\0")]}
 
     def open(self, variants):
         from dissect.hypervisor.disk.vmdk import SparseDisk
         blob = self.bases[0]
-        for v in variants.values():
-            blob = patch(self.bases[v[1]], v[2])
+        if "footer_magic" in variants:
+            blob = patch(self.bases[3], variants["footer_magic"][2])
+        elif not variants:
+            for b in self.bases[1:]:   # the all-ok vector: every base must open and serve
+                if len(SparseDisk(io.BytesIO(b)).read_sectors(0, 8)) != 4096:
+                    raise AssertionError("short")
+        mv = variants.get("magic")
+        if mv:
+            blob = patch(blob if (mv[1] == 0 and "footer_magic" in variants) else self.bases[mv[1]], mv[2])
         s = SparseDisk(io.BytesIO(blob))
         if len(s.read_sectors(0, 8)) != 4096:
             raise AssertionError("short")
@@ -444,7 +463,7 @@ _ORDER = {
     "qcow2": ["magic", "version", "cluster_bits", "subcluster_size", "crypt_method", "compression", "data_file", "backing_file"],
     "vhdx": ["file_identifier", "header_signature", "region_signature_1", "region_signature_2", "metadata_region", "metadata_signature",
              "required_item", "locator_type", "parent_resolved", "bat_region"],
-    "vdi": ["signature"], "hds": ["signature"], "hdd": ["descriptor_present", "image_type"], "vmdk-sparse": ["magic"],
+    "vdi": ["signature"], "hds": ["signature"], "hdd": ["descriptor_present", "image_type", "parent_image_type"], "vmdk-sparse": ["magic", "footer_magic"],
     "hyperv": ["header_signature", "version", "replay_log_signature", "object_table_signature", "key_table_signature"],
     "envelope": ["magic", "version", "attr_keyinfo", "attr_ciphername", "attr_keyhash", "cipher", "aead_footer_version"],
     "keystore": ["mode_present", "mode_none"], "keysafe": ["identifier", "locator_kind"],
